@@ -320,7 +320,28 @@ func (f *FuncCtx) merge(envs []*Env) *Env {
 	for obj := range union {
 		uobjs = append(uobjs, obj)
 	}
-	sort.Slice(uobjs, func(i, j int) bool { return uobjs[i].Pos() < uobjs[j].Pos() || (uobjs[i].Pos() == uobjs[j].Pos() && uobjs[i].Name() < uobjs[j].Name()) })
+	// total order: position, name, then the terms currently bound (objects without a position, e.g. results of
+	// instantiated generics, would otherwise tie and make the emitted text depend on map iteration order)
+	bound := func(o types.Object) string {
+		var b strings.Builder
+		for _, e := range live {
+			if v, ok := e.vars[o]; ok {
+				b.WriteString(v.T)
+			}
+			b.WriteByte('|')
+		}
+		return b.String()
+	}
+	sort.Slice(uobjs, func(i, j int) bool {
+		a, c := uobjs[i], uobjs[j]
+		if ka, kc := f.posKey(a), f.posKey(c); ka != kc {
+			return ka < kc
+		}
+		if a.Name() != c.Name() {
+			return a.Name() < c.Name()
+		}
+		return bound(a) < bound(c)
+	})
 	for _, obj := range uobjs {
 		vals := make([]Val, len(live))
 		same := true
@@ -380,7 +401,8 @@ func (f *FuncCtx) merge(envs []*Env) *Env {
 		}
 		m.vars[obj] = Val{T: f.define(obj.Name(), f.S.SortOf(obj.Type()), t), Typ: obj.Type()}
 	}
-	for name, v0 := range live[0].names {
+	for _, name := range sortedKeys(live[0].names) {
+		v0 := live[0].names[name]
 		same, all := true, true
 		for _, e := range live[1:] {
 			v, ok := e.names[name]
@@ -516,4 +538,25 @@ func (f *FuncCtx) finalize() {
 func posStr(fset *token.FileSet, p token.Pos) string {
 	pp := fset.Position(p)
 	return fmt.Sprintf("%s:%d", pp.Filename, pp.Line)
+}
+
+// sortedKeys: map keys in a fixed order (the generated SMT text must not depend on Go's map iteration order: solver
+// heuristics are sensitive to declaration order, and an obligation that is proved in one order may time out in another).
+func sortedKeys[V any](m map[string]V) []string {
+	ks := make([]string, 0, len(m))
+	for k := range m {
+		ks = append(ks, k)
+	}
+	sort.Strings(ks)
+	return ks
+}
+
+// posKey orders objects by file name and offset: token.Pos values of different files depend on the order in which
+// the loader happened to parse them, which changes from run to run.
+func (f *FuncCtx) posKey(o types.Object) string {
+	if !o.Pos().IsValid() {
+		return ""
+	}
+	p := f.Pkg.Fset.Position(o.Pos())
+	return fmt.Sprintf("%s:%09d", p.Filename, p.Offset)
 }
